@@ -249,6 +249,18 @@ fn judge(v: &Variable, s: &Type) -> Option<&'static str> {
     None
 }
 
+/// Signature of a soundness violation. The answer of an *exhausted iterator* —
+/// a tuple (false, d) judged against (bool, T) with d not in T — is keyed by the
+/// default d and the declared type only: the defect sits in the iterator, not in
+/// the construct that happened to pull it.
+pub fn c01_sig(reason: &str, origin: &str, node: &str, static_type: &str, value: &str) -> String {
+    let st = static_type.replace('|', "/");
+    if reason != "value-from-never-typed" && value.starts_with("(false, ") && static_type.starts_with("(bool, ") {
+        return format!("C01|exhausted-iterator-default|value={}|declared={st}", value.replace('|', "/"));
+    }
+    format!("C01|{reason}|{origin}|node={node}|static={st}")
+}
+
 pub fn install_monitor() {
     MON.with(|m| m.borrow_mut().clear());
     verif::set_monitor(Some(Box::new(|ev: Event<'_>| match ev {
@@ -376,7 +388,7 @@ impl Ctx {
         self.st.nodes_judged += take_node_count();
         for mv in take_monitor_violations() {
             self.st.c01.push(Violation {
-                sig: format!("C01|{}|{origin}|node={}|static={}", mv.reason, mv.node, mv.static_type),
+                sig: c01_sig(mv.reason, origin, &mv.node, &mv.static_type, &mv.value),
                 detail: json!({"case": case, "node": mv.node, "static_type": mv.static_type, "value": mv.value, "reason": mv.reason}),
             });
         }
@@ -534,6 +546,7 @@ impl Ctx {
     /// Parses `text` (a program evaluating to a function value) and returns the function.
     fn define(&mut self, text: &str, origin: &str) -> Option<Arc<simplesl::function::Function>> {
         self.st.programs += 1;
+        verif::set_fuel(Some(self.fuel), Some(core::DEPTH));
         let code = match guard(|| Code::parse(&self.interp, text)) {
             Ok(Ok(c)) => c,
             Ok(Err(e)) => {
@@ -565,7 +578,7 @@ impl Ctx {
     /// plus the literal (folded) twin of each tuple.
     pub fn grid_point(&mut self, c: &Construct, tys: &[&Ty]) {
         let text = program_typed(c, tys, "any");
-        let tnames: Vec<String> = tys.iter().map(|t| t.print()).collect();
+        let tnames: Vec<String> = tys.iter().map(|t| t.print().replace('|', "/")).collect();
         let origin = format!("construct={}|types={}", c.name, tnames.join(";"));
         let Some(f) = self.define(&text, &origin) else { return };
         let cands: Vec<Vec<usize>> = tys
@@ -625,6 +638,7 @@ impl Ctx {
     /// `Code::return_type()` must be a supertype of what `Code::exec()` yields.
     pub fn top_level(&mut self, text: &str, origin: &str) {
         self.st.programs += 1;
+        verif::set_fuel(Some(self.fuel), Some(core::DEPTH));
         let code = match guard(|| Code::parse(&self.interp, text)) {
             Ok(Ok(c)) => c,
             _ => return,
@@ -646,7 +660,7 @@ impl Ctx {
                 self.st.values += 1;
                 if let Some(reason) = judge(&v, &sty) {
                     self.st.c01.push(Violation {
-                        sig: format!("C01|program-type:{reason}|{origin}|static={}", Ty::from_impl(&sty).print()),
+                        sig: c01_sig(reason, origin, "program", &Ty::from_impl(&sty).print(), &canon_typed(&v)),
                         detail: json!({"case": case, "static_type": Ty::from_impl(&sty).print(), "value": canon_typed(&v)}),
                     });
                 }
